@@ -79,6 +79,11 @@ CYCLE_SCRIPTS['elim3'] = ('(declare-const x Int)'
 CYCLE_SCRIPTS['defconst'] = ('(declare-const a Int)'
                              '(define-fun z () Int (+ a 1))'
                              '(assert (> (+ a 1) 0))(check-sat)')
+# a recursive function introduced with define-fun-rec
+CYCLE_SCRIPTS['funrec'] = ('(declare-const a Int)'
+                           '(define-fun-rec g ((x Int)) Int '
+                           '(ite (< x 1) 0 (g (- x 1))))'
+                           '(assert (> (g a) 0))(check-sat)')
 # a let binding that shadows a symbol of its own term
 CYCLE_SCRIPTS['letshadow'] = ('(declare-const x Int)(declare-fun f (Int) Int)'
                               '(assert (let ((x (+ x 1))) (> (f x) 0)))'
